@@ -503,6 +503,30 @@ void case_c06(Args const& a, std::uint64_t c)
 		return;
 	}
 	w.traffic_enabled = true;
+	// in a quarter of the cases the writing socket object is replaced (move-constructed, the old one destroyed) after
+	// every few completed writes, while its segments are in flight, dropped or waiting to be re-sent. A socket may be
+	// moved when it has no operation outstanding: the writer of these cases posts no reads and all phases go one way
+	bool const move_writer = !w.early_io && rng.coin(1, 4);
+	int const mw_dir = rng.choose(2);
+	int mw_every = 1 + rng.choose(4), mw_count = 0;
+	if (move_writer)
+	{
+		Side& W = mw_dir == 0 ? cn.c : cn.s;
+		W.read_limit = 0;
+		Conn* cnp = &cn;
+		W.on_progress = [cnp, mw_dir, mw_every, &mw_count](Side& sd) {
+			if (sd.r_pending || sd.w_pending || !sd.sock || sd.closed || sd.stop) return;
+			if (++mw_count % mw_every != 0) return;
+			std::unique_ptr<ip::tcp::socket>& sp = mw_dir == 0 ? cnp->csock : cnp->ssock;
+			std::unique_ptr<ip::tcp::socket> n;
+			API(n.reset(new ip::tcp::socket(std::move(*sp))));
+			API(sp.reset());
+			sp = std::move(n);
+			sd.sock = sp.get();
+			R().count("writing_sockets_moved_with_segments_in_flight");
+		};
+		w.desc += fmt(" %s moved after every %d completed write(s)", mw_dir == 0 ? "connector" : "accepted socket", mw_every);
+	}
 	int const phases = 1 + rng.choose(3);
 	static std::vector<std::uint64_t> const lens = {1, 100, 1475, 1476, 2950, 10000, 50000, 200000, 1000000};
 	bool stalled = false;
@@ -511,8 +535,8 @@ void case_c06(Args const& a, std::uint64_t c)
 		std::uint64_t len = rng.pick(lens);
 		if (rng.coin(1, 3)) len = std::uint64_t(rng.range(1, a.thorough() ? 1000000 : 300000));
 		if (len > std::uint64_t(w.mtu) * 1500) len = std::uint64_t(w.mtu) * 1500; // bound the number of segments
-		bool const both = !w.finite && rng.coin();
-		int const dir = rng.choose(2);
+		bool const both = !move_writer && !w.finite && rng.coin();
+		int const dir = move_writer ? mw_dir : rng.choose(2);
 		Side* wr[2] = {dir == 0 ? &cn.c : &cn.s, dir == 0 ? &cn.s : &cn.c};
 		for (int k = 0; k < (both ? 2 : 1); ++k)
 		{
